@@ -566,6 +566,7 @@ theorem C10_restart_rank {ev : Ev St P I V E} {spec : P → I → Outcome V E} {
     simp [testedS, countedS, g4, g5.statsRestarts, initTaskR]
   · rw [solveR, hsol]; exact (closeR_statsLast _ _ _).1
 
+set_option linter.unusedSimpArgs false in
 /-- **C10_restart_rank_partial.** Full statement (violated by the code as it is, finding C10-F3):
     *on acceptance `get_stats("programs")` grew by the rank of the accepted program in the segmented
     enumeration, whatever the statistics accumulated by earlier tasks*.  Proved under the decidable
@@ -573,7 +574,6 @@ theorem C10_restart_rank {ev : Ev St P I V E} {spec : P → I → Outcome V E} {
     counts agree before the task (in a session: no task was closed since the construction of the
     solver or the last `reset_stats`, see `C10_restart_session_sub`); witness of the violation:
     `finding_C10_restart_stats_not_cumulative`. -/
-set_option linter.unusedSimpArgs false in
 theorem C10_restart_rank_partial {ev : Ev St P I V E} {spec : P → I → Outcome V E} {Inv : St → Prop}
     (hF : Faithful ev spec Inv) (prm : Params En P) (k : Kind) (exs : List (I × V)) (fuel : Nat)
     (s : RSolver P) (st : St) (hst : Inv st) (en : En) (dl as : List Bool)
